@@ -21,8 +21,35 @@ PID = "C02"
 TARGETS = ["Sim/Case.vo", "Props/C02.vo"]
 
 
+def gen_cancel_stress(rng: random.Random, clock: str):
+    """many events pending at once at scattered times, handlers that mostly cancel: the position of
+    the cancelled event inside the event list matters"""
+    u = S.unit_of(clock)
+    n = rng.randint(3, 6)
+    prog = [[] for _ in range(n + 1)]
+    m = rng.randint(7, 16)
+    for _ in range(m):
+        prog[0].append(["sched", ["abs", u * rng.randint(0, 16)], rng.choice(S.PRIOS), rng.randint(1, n)])
+    for h in range(1, n + 1):
+        for _ in range(rng.randint(0, 3)):
+            r = rng.random()
+            if r < 0.65:
+                prog[h].append(["cancel", rng.randint(0, m + 3)])
+            elif h < n:
+                prog[h].append(["sched", ["rel", u * rng.choice([0, 1, 2, 5, 9])], rng.choice(S.PRIOS), rng.randint(h + 1, n)])
+    if rng.random() < 0.5:      # cancels already during construct_model
+        for _ in range(rng.randint(1, 3)):
+            prog[0].insert(rng.randint(m // 2, len(prog[0])), ["cancel", rng.randint(0, m - 1)])
+    return prog
+
+
 def gen_case(rng: random.Random, i: int) -> dict:
     clock = S.CLOCKS[i % len(S.CLOCKS)]
+    if i % 3 == 2:
+        u = S.unit_of(clock)
+        prog = gen_cancel_stress(rng, clock)
+        return {"clock": clock, "strategy": "pause", "prog": prog,
+                "cmds": [["init", 0, u * rng.randint(0, 14), u * rng.randint(10, 18)], ["start"]]}
     prog = S.gen_program(rng, clock, p_illegal=0.14, p_cancel=0.14)
     return {"clock": clock, "strategy": "pause", "prog": prog, "cmds": [S.gen_repl(rng, clock), ["start"]]}
 
@@ -58,6 +85,7 @@ def oracle(case: dict, obs: dict):
     executed = []
     cancelled = set()
     last_clock = None
+    pending_ever = []
     for ent in obs["log"]:
         if ent[0] == "sched":
             _, mode, clk, outc, s0, s1, cr = ent
@@ -79,6 +107,7 @@ def oracle(case: dict, obs: dict):
                 if mode[0] != "abs" and t == clk:
                     facts["zero_delay"] = True
                 pending[k] = (t, -prio, k)
+                pending_ever.append(k)
         elif ent[0] == "cancel":
             _, k, was, still = ent
             if was != (k in pending):
@@ -89,6 +118,25 @@ def oracle(case: dict, obs: dict):
                 facts["cancel_pending"] = True
                 cancelled.add(k)
                 del pending[k]
+        elif ent[0] == "cmd" and ent[1][0] == "init" and ent[2] == "ok":
+            # initialize schedules the warm-up event last: priority 10, after everything construct_model created
+            warm = ent[1][2]
+            if warm >= ent[1][1]:
+                pending["W"] = (warm, -10, len(pending_ever) - 0.5)
+        elif ent[0] == "ntf" and ent[1] == "warmup":
+            ts = ent[2]
+            if "W" not in pending:
+                return ("warmup-fired-but-not-pending", f"WARMUP@{ts}/4 although no warm-up event was pending"), facts
+            key = pending["W"]
+            mn = min(pending.values())
+            if key != mn:
+                return ("executed-event-not-minimum", f"warm-up event key {key} executed while {mn} was pending"), facts
+            if ts != key[0]:
+                return ("clock-differs-from-event-time", f"warm-up event at {key[0]}/4 ran with clock {ts}/4"), facts
+            if last_clock is not None and ts < last_clock:
+                return ("clock-went-backwards", f"clock {last_clock}/4 -> {ts}/4 (warm-up)"), facts
+            last_clock = ts
+            del pending["W"]
         elif ent[0] == "exec":
             k, clk = ent[1], ent[2]
             if not isinstance(clk, int):
@@ -101,7 +149,8 @@ def oracle(case: dict, obs: dict):
             key = pending[k]
             mn = min(pending.values())
             if key != mn:
-                return ("executed-event-not-minimum", f"event {k} key {key} executed while {mn} was pending"), facts
+                return ("executed-event-not-minimum", f"event {k} key {key} executed while {mn} was pending"
+                        + (" (the warm-up event)" if pending.get("W") == mn else "")), facts
             if sum(1 for v in pending.values() if v[0] == key[0]) > 1:
                 facts["ties"] = True
             if clk != key[0]:
@@ -117,9 +166,12 @@ def oracle(case: dict, obs: dict):
     if obs["snaps"] and obs["snaps"][-1][1] == "ENDED":
         left = [v for v in pending.values() if v[0] <= end]
         if left:
-            return ("event-within-horizon-not-executed", f"events {left} (time, -prio, k) never ran although the replication ended at {end}/4"), facts
+            return ("event-within-horizon-not-executed",
+                    f"events {left} (time, -prio, creation rank; rank x.5 = the warm-up event) never ran although the replication ended at {end}/4"), facts
         if obs["snaps"][-1][3] != end:
             return ("final-clock-not-end", f"final clock {obs['snaps'][-1][3]}/4, end {end}/4"), facts
+    if obs.get("notes"):
+        return ("simulator-did-not-come-to-rest", "; ".join(obs["notes"])), facts
     if why is not None:
         return ("unexpected-observation", why), facts
     return None, facts
@@ -154,6 +206,72 @@ def shrink(case, pred):
             if changed or budget <= 0 or _t.time() > deadline:
                 break
     return cur
+
+
+def variants(case, rng, n):
+    """small edits of a case on which model and implementation disagree"""
+    out = []
+    for _ in range(n):
+        v = json.loads(json.dumps(case))
+        init = v["cmds"][0]
+        u = S.unit_of(v["clock"]) if v["clock"] != "durmin" else 1
+        r = rng.random()
+        if r < 0.25 and init[0] == "init":
+            init[3] = max(init[1] + u, init[3] + u * rng.randint(-6, 12))        # move the end
+        elif r < 0.45 and init[0] == "init":
+            init[2] = init[1] + u * rng.randint(0, 12)                           # move the warm-up
+        elif r < 0.65:
+            h = rng.randrange(len(v["prog"]))
+            v["prog"][h].insert(rng.randint(0, len(v["prog"][h])), ["cancel", rng.randint(0, 12)])
+        elif r < 0.8:
+            bodies = [h for h in range(len(v["prog"])) if v["prog"][h]]
+            if bodies:
+                h = rng.choice(bodies)
+                del v["prog"][h][rng.randrange(len(v["prog"][h]))]
+        elif r < 0.9:
+            v["cmds"].append(["start"])
+        else:
+            v["cmds"].insert(rng.randint(1, len(v["cmds"])), ["step"])
+        out.append(v)
+    return out
+
+
+def neighbourhood_search(run, pid, seeds, oracle_fn, prepare, rng, per_seed=120) -> bool:
+    """The correspondence broke on [seeds] but they satisfy every clause of the property: look
+    around them for an input that violates the property itself."""
+    cand = [v for s in seeds for v in variants(s, rng, per_seed)]
+    if not cand:
+        return False
+    try:
+        obs = S.run_impl(cand)
+        ctx = prepare(cand, obs) if prepare else None
+    except Exception:  # noqa
+        return False
+    for j, (c, o) in enumerate(zip(cand, obs)):
+        if o.get("skipped"):
+            continue
+        try:
+            bad, _ = oracle_fn(c, o, ctx, j) if prepare else oracle_fn(c, o)
+        except Exception:  # noqa
+            continue
+        if bad and bad[0] != "driver-error":
+            sig = bad[0]
+
+            def pred(x, _sig=sig):
+                try:
+                    o2 = S.run_impl([x], nproc=1)[0]
+                    b, _ = oracle_fn(x, o2, prepare([x], [o2]), 0) if prepare else oracle_fn(x, o2)
+                except Exception:  # noqa
+                    return False
+                return bool(b) and b[0] == _sig
+            small = shrink(c, pred)
+            o2 = S.run_impl([small], nproc=1)[0]
+            run.cov["neighbourhood_search"] = {"seeds": len(seeds), "variants": len(cand), "found": sig}
+            run.violation(sig, bad[1], {"case": small, "impl_observation": o2, "found_by": "search around a model/implementation disagreement",
+                                        "how": "feed [case] as JSON list to harness/sim_driver.py with PYTHONPATH=/repo/src"})
+            return True
+    run.cov["neighbourhood_search"] = {"seeds": len(seeds), "variants": len(cand), "found": None}
+    return False
 
 
 def main(tier: str, pid=PID, gen=gen_case, oracle_fn=oracle, n_quick=4000, n_thorough=150000,
@@ -192,6 +310,8 @@ def main(tier: str, pid=PID, gen=gen_case, oracle_fn=oracle, n_quick=4000, n_tho
     hist = {}
     first_bad = None
     for i, (c, o) in enumerate(zip(cases, obs)):
+        if o.get("skipped"):
+            continue
         try:
             bad, facts = oracle_fn(c, o)
         except Exception as exc:  # noqa: an observation the oracle cannot even read is reported, never a crash
@@ -207,7 +327,8 @@ def main(tier: str, pid=PID, gen=gen_case, oracle_fn=oracle, n_quick=4000, n_tho
     run.cov["evaluations"] = len(cases)
     run.cov["distinct_nontrivial"] = len(nontriv)
     run.cov["rule"] = rule or ("generated model programs (DAG of handlers + optional self-rescheduling handler; now/relative/absolute "
-                               "scheduling, zero delays, exact ties, priorities 1..10, cancels of pending/executed events, illegal requests) "
+                               "scheduling, zero delays, exact ties, priorities 1..10, cancels of pending/executed events, illegal requests; "
+                               "every third case a cancel-stress program: 7-16 events pending at once, handlers that mostly cancel) "
                                "x 4 clock kinds (int, float, Duration s, Duration min), run with initialize+start; non-trivial = distinct case "
                                "executing >= 3 events and exercising at least one of: time tie, cancel of a pending event, illegal request, zero delay")
     run.cov["feature_histogram"] = hist
@@ -249,6 +370,10 @@ def main(tier: str, pid=PID, gen=gen_case, oracle_fn=oracle, n_quick=4000, n_tho
     run.cov["cases_outside_model"] = n_unc
     run.cov["cases_not_representable"] = sum(1 for x in codes if x == 3)
     if n_dis and not first_bad:
+        found = neighbourhood_search(run, pid, [cases[j] for j, x in enumerate(codes) if x == 1][:6], oracle_fn if not prepare else base_oracle,
+                                     prepare, rng)
+        if found:
+            return run.finish()
         i = codes.index(1)
         view = S.coq_view(pid, cases[i], obs[i])
         run.violation("model-impl-disagree",
